@@ -345,6 +345,12 @@ func (c *Ctx) beat(label string) {
 	}
 }
 
+// LastCase: the label of the last completed case.
+func (c *Ctx) LastCase() string {
+	l, _ := c.lastLabel.Load().(string)
+	return trunc(l, 600)
+}
+
 // StartWatchdog: when the driver makes no progress (no Case / Eq / Hold) for `stall`, onStall is called once with a
 // report naming the last completed case and the goroutines that are stuck. A library call that never returns — a
 // deadlock, a lost wake-up, an endless loop — thus ends the run with a violation instead of hanging the check.
